@@ -118,7 +118,7 @@ def strategy(spec, ctx):
     feats = dsl.swarm_features(ctx.seed, ctx.shard_index)
     ctx.count('features:' + ','.join(sorted(feats)))
     return st.fixed_dictionaries({
-        'tree': dsl.tree_strategy(feats, max_leaves=spec.get('max_leaves', 6)),
+        'tree': st.one_of(*[dsl.tree_strategy(feats, max_leaves=spec.get('max_leaves', 6))] * 5, dsl.hostile_tree(5), dsl.deep_tree_strategy(feats)),
         'tseed': st.integers(0, 2 ** 20),
         'ref': dsl.refspec_strategy(feats),
     })
